@@ -4,6 +4,7 @@ CONSTANTS
   Actors = {w1, w2, rep}
   Writers = {w1, w2}
   Snap = "none"
+  SnapFails = FALSE
   Rst = "none"
   Rep = rep
   Offsets = {0, 1, 2}
